@@ -1,4 +1,4 @@
-"""C13 -- a long-lived project answers like a fresh one (clauses R13.1-R13.14)."""
+"""C13 -- a long-lived project answers like a fresh one (clauses R13.1-R13.15)."""
 from __future__ import annotations
 
 import ast
@@ -21,6 +21,7 @@ EXPLANATION = (
     ' R13.10: the change indicator is compared for (in)equality only and carries mtime and size.  R13.11: re-indexing a module deletes its rows on every path before inserting; the LIKE prefix that deletes a package escapes %, _ and the escape character (first).'
     ' R13.12: each validate search looks the validated resource itself up in the watch table, folder or not.'
 )
+EXPLANATION += ' R13.15: the unfiltered observer resets concluded data on created, moved, removed and validate.'
 EXPLANATION += ' R13.14: a function that remembers its answer under a key reads, in the computation of the remembered value, nothing of its parameters that the key does not contain (followed into the helpers it calls).'
 ASSUMPTIONS = ["required event sets per cache are a hand-confirmed table (sa/rules/c13.py REQUIRED) with reasons"]
 
@@ -69,6 +70,7 @@ def check(ctx, res) -> None:
     from .common import memo_key_rule
 
     memo_key_rule(ctx, res, "R13.14", (), rest=True)
+    _structure_observer_rule(ctx, res)
 
 
 def _indicator_rule(ctx, res) -> None:
@@ -675,3 +677,71 @@ def _check_main(ctx, res) -> None:
                     "but not this copy, so the long-lived project keeps answering with the old names while a fresh project sees the new ones",
                     function=m.qualname)
     res.floor("R13.9", "object-lifetime caches in the object model", n139, 4)
+
+
+def _structure_observer_rule(ctx, res) -> None:
+    """R13.15: what a module CONCLUDED (inferred objects, resolved imports) can depend on any resource of the project: `import m`
+    resolves differently once some file is created as, moved to, moved away from or removed at `m.py` -- whether or not that
+    file was ever analysed.  A filtered observer reports only watched resources, so the reset of concluded data
+    (`forget_all_data`) hangs on an UNFILTERED ResourceObserver that PyCore registers with the project, and that observer
+    has a callback reaching the reset for each of the four events: created, moved, removed, validate.  The moved callback
+    takes (resource, new_resource)."""
+    from ..core import call_name, calls_in, is_self_attr, param_names
+    idx = ctx.idx
+    pc = idx.need_class("rope.base.pycore.PyCore")
+
+    def reaches_reset(mname: str, seen=None) -> bool:
+        seen = seen or set()
+        if mname in seen or mname not in pc.methods:
+            return False
+        seen.add(mname)
+        for c in calls_in(pc.methods[mname].node):
+            if call_name(c) == "forget_all_data":
+                return True
+            if is_self_attr(c.func) and reaches_reset(c.func.attr, seen):
+                return True
+        return False
+
+    best = None
+    n = 0
+    for m in pc.methods.values():
+        assigned = {}
+        for x in walk_local(m.node):
+            if isinstance(x, ast.Assign) and len(x.targets) == 1 and isinstance(x.targets[0], ast.Name):
+                assigned.setdefault(x.targets[0].id, []).append(x)
+        filtered = {a.id for c in calls_in(m.node) if call_name(c) == "FilteredResourceObserver" for a in c.args if isinstance(a, ast.Name)}
+        for x in walk_local(m.node):
+            if not (isinstance(x, ast.Assign) and isinstance(x.value, ast.Call) and call_name(x.value) == "ResourceObserver" and isinstance(x.targets[0], ast.Name)):
+                continue
+            name = x.targets[0].id
+            if name in filtered or not any(call_name(c) == "add_observer" and c.args and isinstance(c.args[0], ast.Name) and c.args[0].id == name for c in calls_in(m.node)):
+                continue
+            events = {}
+            for k in x.value.keywords:
+                v = k.value
+                if isinstance(v, ast.Name):  # a callback held in a local: the binding in force at the construction
+                    before = [b for b in assigned.get(v.id, []) if b.lineno < x.lineno]
+                    if before:
+                        v = max(before, key=lambda b: b.lineno).value
+                if is_self_attr(v) and reaches_reset(v.attr):
+                    events[k.arg] = v.attr
+            if events:
+                n += 1
+                if best is None or len(events) > len(best[1]):
+                    best = (x, events, m)
+    if best is None:
+        raise AnalysisError("anchor=PyCore: no unfiltered ResourceObserver whose callbacks reset the concluded data")
+    x, events, m = best
+    missing = sorted({"created", "moved", "removed", "validate"} - set(events))
+    bad_sig = None
+    if "moved" in events:
+        cb = pc.methods[events["moved"]]
+        if len(param_names(cb.node)) < 3:
+            bad_sig = f"{cb.name} takes one resource, the moved event passes two"
+    ok = not missing and bad_sig is None
+    res.add("R13.15", "PyCore|concluded-data-reset-on-every-structural-event", ok, f"{m.unit.rel}:{x.lineno}",
+            "the unfiltered observer resets the concluded data on created, moved, removed and validate" if ok else
+            (f"the unfiltered observer that resets the concluded data is not registered for {missing}" if missing else bad_sig) +
+            ": a resource that was never analysed and is moved to (or away from, or removed at) the place an import of an analysed module points to changes what "
+            "that import means, and nothing forgets the old conclusion -- the long-lived project keeps answering 'unresolved' (or the old module) where a "
+            "fresh one resolves it", function=m.qualname, events=sorted(events))
